@@ -79,10 +79,15 @@ def gen(seed, tier="quick"):
         if lk < 0.65:
             leaf = gq.arr_ann(atype=r.choice(("duck", "duck", "mduck")), q_ok=struct is not None, min_tokens=1, dtype="Float")
             touched = g.anns[leaf]["toks"]
-        elif lk < 0.8:
+        elif lk < 0.78:
             leaf, touched = "leaf", []
-        else:
+        elif lk < 0.9:
             leaf, touched = "int", []
+        else:
+            # a STRUCTURED PyTree as the leaf type of a structure-less one: flattening itself binds the inner structure
+            # name (is_leaf runs the inner check), so a later failure of the outer check must unbind it again
+            leaf, touched = g.add_ann({"k": "tree", "leaf": "int", "struct": r.choice(("S", "T"))}), []
+            struct = None
         tann = g.add_ann({"k": "tree", "leaf": leaf, "struct": struct})
         skel = g.tree_shape(r.randrange(1, 4), 6, node_ok=True)
         bad_at = r.randrange(0, 8) if r.random() < 0.6 else -1
@@ -92,6 +97,10 @@ def gen(seed, tier="quick"):
                 return {"t": "leaf"} if i != bad_at else {"t": "int", "v": 1}
             if leaf == "int":
                 return {"t": "int", "v": i} if i != bad_at else {"t": "str", "v": "x"}
+            if g.anns.get(leaf, {}).get("k") == "tree":
+                return {"t": "tuple", "c": [{"t": "int", "v": i}, {"t": "int", "v": 0}]} if i != bad_at else \
+                    r.choice(({"t": "str", "v": "x"}, {"t": "tuple", "c": [{"t": "int", "v": 1}, {"t": "str", "v": "y"}]},
+                              {"t": "list", "c": [{"t": "int", "v": 1}]}))
             spec = g.anns[leaf]
             vt = "mduck" if spec["atype"] == "mduck" else "duck"
             p = dict(pref, n=pref["n"] + (i % 2))
@@ -250,7 +259,11 @@ def _execute(scn):
                     "fault_class": (None if p is None else "base" if p["exc"] in seams.EXC_BASE else "ordinary"),
                     "outcome": oc.split(":")[0]}
             v = None
-            if rec["out"] is True:
+            if rec["out"] is True and fired:
+                # the check passed although user code raised once inside it (typeguard's leaf matcher swallows TypeError):
+                # the re-issue runs WITHOUT that fault, so it is not a repetition of the same check -- nothing to compare
+                stats.inc("passed_despite_fault")
+            elif rec["out"] is True:
                 if rec.get("out2") is not True:
                     v = violation(PID, "twice", {"what": "a passing check, re-issued, did not pass", "first": rec["out"],
                                                  "second": rec.get("out2"), "fault": p}, sig=dict(base, oracle="twice"))
